@@ -48,7 +48,7 @@ def tla(v):
     raise ValueError(v)
 
 
-def write_model(wd, name, consts, table_expr, invariants, extra_defs=""):
+def write_model(wd, name, consts, table_expr, invariants, extra_defs="", init="Init", nxt="Next"):
     """MC module for the protocol model; table_expr is a TLA+ expression over the spec's tables."""
     lines = ["---- MODULE %s ----" % name, "EXTENDS Adapters"]
     for k, v in consts.items():
@@ -60,7 +60,7 @@ def write_model(wd, name, consts, table_expr, invariants, extra_defs=""):
     with open(os.path.join(wd, name + ".tla"), "w") as f:
         f.write("\n".join(lines) + "\n")
     c = ["CONSTANTS"] + ["  %s <- c_%s" % (k, k) for k in list(consts) + ["Table"]]
-    c += ["INIT Init", "NEXT Next"]
+    c += ["INIT " + init, "NEXT " + nxt]
     if invariants:
         c.append("INVARIANTS " + " ".join(invariants))
     with open(os.path.join(wd, name + ".cfg"), "w") as f:
@@ -86,7 +86,7 @@ LNext == /\\ Assert(LawsOK, "table / digest laws of spec/Adapters.tla violated")
 ====
 """ % name)
     with open(os.path.join(wd, name + ".cfg"), "w") as f:
-        f.write("CONSTANTS Parties <- c_Parties Byz <- c_Empty Outsiders <- c_Empty Table <- c_Empty MaxSpoof = 0 TrustEmbedded = FALSE NearestIndex = FALSE\n"
+        f.write("CONSTANTS Parties <- c_Parties Byz <- c_Empty Outsiders <- c_Empty Table <- c_Empty MaxSpoof = 0 TrustEmbedded = FALSE NearestIndex = FALSE IgnoreCtx = FALSE\n"
                 "INIT Init\nNEXT LNext\n")
     r = vlib.run_tlc(name, name + ".cfg", ["Adapters.tla"], workdir=wd, workers=1, timeout=300, keep_prints=["TAB"])
     if r.violation:
@@ -119,7 +119,7 @@ def tlc_model(wd, tr):
         return r, dict(config=name, table=table, constants=consts, invariants=invariants, distinct_states=r.distinct,
                        states_generated=r.generated, depth=r.depth, wall_s=round(r.wall, 1), expected_violation=expect, result=r.violation or "holds")
 
-    hon = dict(Parties=[1, 2, 3], Byz=[], Outsiders=[], MaxSpoof=0, TrustEmbedded=False, NearestIndex=False)
+    hon = dict(Parties=[1, 2, 3], Byz=[], Outsiders=[], MaxSpoof=0, TrustEmbedded=False, NearestIndex=False, IgnoreCtx=False)
     byz = dict(hon, Byz=[3], MaxSpoof=1)
     byzo = dict(byz, Outsiders=[9])
     hon2 = dict(hon, Parties=[1, 2])
@@ -501,7 +501,7 @@ def validate(traces, wd, tag, par=4, chunk_lines=12000):
         with open(os.path.join(d, name + ".tla"), "w") as f:
             f.write('---- MODULE %s ----\nEXTENDS AdaptersTrace\nc_Parties == {1}\nc_Empty == {}\nc_TraceFile == "%s"\n====\n' % (name, tf))
         with open(os.path.join(d, name + ".cfg"), "w") as f:
-            f.write("CONSTANTS Parties <- c_Parties Byz <- c_Empty Outsiders <- c_Empty Table <- c_Empty MaxSpoof = 0 TrustEmbedded = FALSE NearestIndex = FALSE\n"
+            f.write("CONSTANTS Parties <- c_Parties Byz <- c_Empty Outsiders <- c_Empty Table <- c_Empty MaxSpoof = 0 TrustEmbedded = FALSE NearestIndex = FALSE IgnoreCtx = FALSE\n"
                     "  TraceFile <- c_TraceFile\nINIT TInit\nNEXT TNext\n")
         r = vlib.run_tlc(name, name + ".cfg", ["Adapters.tla", "AdaptersTrace.tla"], workdir=d, workers=1, timeout=1500,
                          keep_prints=["VIOL", "END"], heap="4g")
@@ -879,6 +879,320 @@ def finish(pid, tr, verdict, st, trn, configs, tabs, plan, stats):
         "party identifier 0 is not exercised (tss-lib uses the identifier as the Shamir evaluation point)",
     ], violations=len(verdict.violations))
     return rc
+
+
+# ------------------------------------------------------------------------------------------------------------------
+# property C11 at the adapter level: fault catalogue on KeyGen / Sign of the real adapters (called by tools/eng_c11.py)
+# ------------------------------------------------------------------------------------------------------------------
+
+C11_MONITORS = ["CallReturnsAfterCtxEnd", "ErrorUnlessCompleted", "NoPanic", "ProbeServedAfterwards"]
+C11_LOAD_SENSITIVE = ("CallReturnsAfterCtxEnd", "ProbeServedAfterwards")
+C11_HON = dict(Parties=[1, 2], Byz=[], Outsiders=[], MaxSpoof=0, TrustEmbedded=False, NearestIndex=False, IgnoreCtx=False)
+C11_INV = ["EveryEndedCallReturned", "ErrorUnlessCompletedM", "ErrorOnlyAfterCtxEnd", "FaultFreeCompletes"]
+
+
+def c11_fault_cases(wd):
+    """the case list comes from the spec: FaultCases(table of the phase, 1..n) for the model's message count"""
+    name = "MC_ad_fcases"
+    combos = [("eddsa", "keygen", n) for n in (2, 3, 4)] + [("eddsa", "sign", n) for n in (2, 3, 4)] + [("ecdsa", "keygen", 3), ("ecdsa", "sign", 3)]
+    fields = ", ".join('%s_%s_%d |-> FaultCases(PhaseOf(%s, "%s"), 1..%d)' % (ad, ph, n, "EdDSATable" if ad == "eddsa" else "ECDSATable", ph, n)
+                       for ad, ph, n in combos)
+    with open(os.path.join(wd, name + ".tla"), "w") as f:
+        f.write("""---- MODULE %s ----
+EXTENDS Adapters, Json
+c_Parties == {1}
+c_Empty == {}
+LNext == /\\ PrintT(<<"FC", ToJson([%s])>>)
+         /\\ UNCHANGED vars
+====
+""" % (name, fields))
+    with open(os.path.join(wd, name + ".cfg"), "w") as f:
+        f.write("CONSTANTS Parties <- c_Parties Byz <- c_Empty Outsiders <- c_Empty Table <- c_Empty MaxSpoof = 0 TrustEmbedded = FALSE "
+                "NearestIndex = FALSE IgnoreCtx = FALSE\nINIT Init\nNEXT LNext\n")
+    r = vlib.run_tlc(name, name + ".cfg", ["Adapters.tla"], workdir=wd, workers=1, timeout=300, keep_prints=["FC"])
+    fc = [o for (t, o) in r.prints if t == "FC"]
+    if r.violation or not fc:
+        raise vlib.CheckError("spec/Adapters.tla printed no fault cases:\n%s" % r.out[-1500:])
+    return r, fc[0]
+
+
+def c11_model(wd, tier):
+    """exhaustive check of the fault extension of the protocol model (every fault case x every interleaving x contexts ending at any
+    point) + the must-fail variant (a receive loop that ignores its context)"""
+    jobs = []
+
+    def add(name, consts, table, expect=None, timeout=900):
+        jobs.append((name, consts, table, expect, timeout))
+
+    add("f_ed_sg2", C11_HON, 'PhaseOf(EdDSATable, "sign")')
+    add("f_ed_kg2", C11_HON, 'PhaseOf(EdDSATable, "keygen")')
+    add("f_ec_kg2", C11_HON, 'PhaseOf(ECDSATable, "keygen")')
+    add("f_mut_ctx", dict(C11_HON, IgnoreCtx=True), 'PhaseOf(EdDSATable, "sign")', expect=["EveryEndedCallReturned"])
+    if tier == "thorough":
+        add("f_ed_sg3", dict(C11_HON, Parties=[1, 2, 3]), 'PhaseOf(EdDSATable, "sign")', timeout=1800)
+        add("f_ec_sg2", C11_HON, 'PhaseOf(ECDSATable, "sign")', timeout=1800)
+
+    def do(job):
+        name, consts, table, expect, timeout = job
+        write_model(wd, name, consts, table, C11_INV, init="FInit", nxt="FNext")
+        r = vlib.run_tlc(name, name + ".cfg", ["Adapters.tla"], workdir=wd, timeout=timeout, heap="6g", workers=4)
+        log("adapters fault model %s: %r" % (name, r))
+        if expect is None and r.violation:
+            raise vlib.CheckError("Adapters fault model %s violates %s at design level:\n%s" % (name, r.violation, "".join(r.error_trace[-3:])))
+        if expect is not None and r.violation not in expect:
+            raise vlib.CheckError("anti-vacuity: the fault model %s should violate one of %s but TLC says %s" % (name, expect, r.violation))
+        return r, dict(config=name, table=table, constants=consts, invariants=C11_INV, distinct_states=r.distinct, states_generated=r.generated,
+                       depth=r.depth, wall_s=round(r.wall, 1), expected_violation=expect, result=r.violation or "holds")
+
+    st = trn = 0
+    ev = []
+    with concurrent.futures.ThreadPoolExecutor(max_workers=3) as ex:
+        for r, e in ex.map(do, jobs):
+            st += r.distinct
+            trn += r.generated
+            ev.append(e)
+    return st, trn, ev
+
+
+def c11_cases(fc, tier, rng):
+    """concrete driver cases: the spec's fault cases mapped onto real committees + what the model has no message for (a context that
+    has expired at call time, unusable stored share data)"""
+    big = tier == "thorough"
+    cases = []
+    digest = bytes(rng.randrange(1, 256) for _ in range(32)).hex()
+
+    def base(ad, ids, thr, phase):
+        ec = ad == "ecdsa"
+        return dict(adapter=ad, ids=list(ids), thr=thr, phase=phase, fault="none", p=0, k=0, ws=0, wu="", wr=0, at_ms=0, variant="",
+                    deadline_ms=(5000 if big else 4000) if ec else 600, bound_ms=2000, hard_ms=6000, shares_in=FIXTURE if ec else "",
+                    digest=digest, probe=True)
+
+    def from_spec(ad, ids, thr, phase, share_v, share_w, ncancel):
+        recs = fc["%s_%s_%d" % (ad, phase, len(ids))]
+        van = [r for r in recs if r["kind"] == "vanish"]
+        wh = [r for r in recs if r["kind"] == "withhold"]
+        can = [r for r in recs if r["kind"] == "cancel"]
+        rng.shuffle(van)
+        rng.shuffle(wh)
+        kmax = max(r["k"] for r in van)
+        # always keep the boundary points k = 0 and k = all for some peer
+        keep_v = [r for r in van if r["k"] in (0, kmax)][:2] if share_v < 1 else []
+        keep_v += [r for r in van if r not in keep_v][:max(0, int(round(len(van) * share_v)) - len(keep_v))]
+        b = base(ad, ids, thr, phase)
+        typical = 1500 if ad == "ecdsa" else 150
+        out = [dict(b)]
+        for r in keep_v:
+            out.append(dict(b, fault="vanish", p=ids[r["p"] - 1], k=r["k"]))
+        for r in wh[:max(1, int(round(len(wh) * share_w)))]:
+            out.append(dict(b, fault="withhold", ws=ids[r["s"] - 1], wu=r["u"], wr=ids[r["r"] - 1]))
+        for r in can:
+            for i in range(ncancel):
+                at = [0, rng.randrange(1, 10), rng.randrange(10, typical), rng.randrange(typical, 2 * typical)][i % 4]
+                out.append(dict(b, fault="cancel", p=ids[r["p"] - 1], at_ms=at))
+        return out
+
+    def extras(ad, ids, thr, phase, variants, nparty):
+        b = base(ad, ids, thr, phase)
+        out = [dict(b, fault="expired", p=0)]
+        for p in rng.sample(ids, nparty):
+            out.append(dict(b, fault="expired", p=p))
+        if phase == "sign":
+            for v in variants:
+                for p in rng.sample(ids, nparty):
+                    out.append(dict(b, fault="baddata", p=p, variant=v))
+        return out
+
+    ED_VARIANTS = ["empty", "truncated", "garbage", "emptyobj", "null", "other-party", "foreign", "nodata"]
+    EC_VARIANTS = ["empty", "truncated", "garbage", "emptyobj", "null", "other-party", "foreign", "nodata"]
+    if big:
+        for ids, thr in (([1, 2, 3], 1), ([1, 2, 3, 4], 2), ([1, 2], 1), ([2, 256, 65535], 2)):
+            full = len(ids) <= 4
+            for ph in ("keygen", "sign"):
+                cases += from_spec("eddsa", ids, thr, ph, 1.0 if full else 0.5, 1.0, 4 if ids == [1, 2, 3] else 1)
+                cases += extras("eddsa", ids, thr, ph, ED_VARIANTS, len(ids) if ids == [1, 2, 3] else 1)
+        cases += from_spec("ecdsa", [1, 2, 3], 1, "sign", 1.0, 1.0, 2)
+        cases += extras("ecdsa", [1, 2, 3], 1, "sign", EC_VARIANTS, 1)
+    else:
+        for ph in ("keygen", "sign"):
+            cases += from_spec("eddsa", [1, 2, 3], 1, ph, 1.0, 0.34, 1)
+            cases += extras("eddsa", [1, 2, 3], 1, ph, ED_VARIANTS, 1)
+            cases += from_spec("eddsa", [1, 2], 1, ph, 0.5, 0.5, 0)[1:]
+            cases += from_spec("eddsa", [2, 256, 65535], 2, ph, 0.2, 0.1, 0)[1:]
+        cases += from_spec("ecdsa", [1, 2, 3], 1, "sign", 0.13, 0.05, 0)
+        cases += [c for c in extras("ecdsa", [1, 2, 3], 1, "sign", EC_VARIANTS, 1) if c["fault"] != "expired" or c["p"] == 0]
+        cases.append(dict(base("ecdsa", [1, 2, 3], 1, "sign"), fault="cancel", p=rng.choice([1, 2, 3]), at_ms=rng.randrange(50, 1200)))
+    # ECDSA key generation: the context ends before / while the safe primes are generated
+    kb = base("ecdsa", [1, 2, 3], 1, "keygen")
+    cases.append(dict(kb, fault="expired", p=0))
+    cases.append(dict(kb, fault="shortdeadline", deadline_ms=300, variant="during-prime-generation"))
+    if big:
+        # no deadline: the adapter gives the prime generation its default five minutes; the contexts are cancelled while it runs
+        cases.append(dict(kb, fault="cancel", p=0, at_ms=500, hard_ms=50000, variant="during-prime-generation"))
+    return cases
+
+
+def c11_signature(mon, c):
+    tail = c["fault"] + ("/" + c["variant"] if c.get("variant") and (c["fault"] in ("baddata", "shortdeadline") or c["variant"] == "during-prime-generation") else "")
+    return "adapters/%s/%s/%s/%s" % (mon, c["adapter"], c["phase"], tail)
+
+
+def c11_describe(c):
+    d = "%s %s ids=%s t=%d, " % (c["adapter"], c["phase"], c["ids"], c["thr"])
+    if c["fault"] == "vanish":
+        d += "peer %d silent after its message no. %d" % (c["p"], c["k"])
+    elif c["fault"] == "withhold":
+        d += "the message %s from %d to %d withheld" % (c["wu"], c["ws"], c["wr"])
+    elif c["fault"] == "cancel":
+        d += "context of %s cancelled after %d ms%s" % ("every party" if c["p"] == 0 else "party %d" % c["p"], c["at_ms"],
+                                                            " (%s)" % c["variant"] if c.get("variant") else "")
+    elif c["fault"] == "expired":
+        d += "context of %s already expired at call time" % ("every party" if c["p"] == 0 else "party %d" % c["p"])
+    elif c["fault"] == "baddata":
+        d += "unusable stored share data (%s) at party %d" % (c["variant"], c["p"])
+    elif c["fault"] == "shortdeadline":
+        d += "deadline shorter than the call needs (%s)" % c["variant"]
+    else:
+        d += "no fault"
+    return d + " (deadline %d ms)" % c["deadline_ms"]
+
+
+def c11_run_cases(cases, wd, drv, tag, workers, chunk):
+    """runs the cases in child processes; returns {index: [events]} with a complete reset line first"""
+    jobfile = os.path.join(wd, "afjob_%s.json" % tag)
+    with open(jobfile, "w") as f:
+        json.dump(dict(cases=cases, workers=workers, chunk=chunk), f)
+    outfile = os.path.join(wd, "af_%s.ndjson" % tag)
+    rc, _, err = vlib.run_driver(drv, ["adfault"], stdin_path=jobfile, stdout_path=outfile, timeout=3000)
+    if rc != 0:
+        raise vlib.CheckError("adfault driver failed (rc=%d): %s" % (rc, err[-3000:]))
+    traces = {}
+    with open(outfile) as f:
+        for line in f:
+            try:
+                o = json.loads(line)
+            except ValueError:
+                continue
+            traces.setdefault(o["t"], []).append(o)
+    for t, c in enumerate(cases):
+        ev = traces.get(t)
+        if not ev:
+            raise vlib.CheckError("adfault produced nothing for case %d: %s" % (t, err[-1500:]))
+        if "fk" not in ev[0]:
+            # the child died before it could print the case: rebuild the header from the case
+            ev[0] = dict(t=t, e="reset", fk=c["fault"], ad=c["adapter"], ph=c["phase"], ids=c["ids"], thr=c["thr"], fp=c["p"], k=c["k"], ws=c["ws"],
+                         wu=c["wu"], wr=c["wr"], at=c["at_ms"], var=c["variant"], dl=c["deadline_ms"], bound=c["bound_ms"], probe=c["probe"])
+    return traces
+
+
+def c11_slim(o):
+    return {k: v for k, v in o.items() if k not in ("txt", "what", "detail")}
+
+
+def c11_validate(traces, wd, tag):
+    slimmed = {t: [c11_slim(o) for o in ev] for t, ev in traces.items()}
+    # validate() strips BULKY fields itself; keys and chunking as for the C19 traces
+    return validate(slimmed, wd, tag, par=2, chunk_lines=20000)
+
+
+def c11_part(wd, drv, tier, rng):
+    """fault catalogue on the real adapters; returns dict(violations=[(signature, description, replay_obj)], drift, coverage, assumptions)"""
+    os.makedirs(wd, exist_ok=True)
+    r0, fc = c11_fault_cases(wd)
+    cases = c11_cases(fc, tier, rng)
+    log("adapters/C11: %d fault cases (%s)" % (len(cases), ", ".join("%s %d" % (k, sum(1 for c in cases if c["fault"] == k))
+                                                                       for k in ("none", "vanish", "withhold", "cancel", "expired", "shortdeadline", "baddata"))))
+    drift = {}
+    with concurrent.futures.ThreadPoolExecutor(max_workers=1) as ex:
+        model = ex.submit(c11_model, wd, tier)
+        # cheap cases first would leave the expensive ECDSA ones for the end: interleave by shuffling (seeded)
+        order = list(range(len(cases)))
+        rng.shuffle(order)
+        order.sort(key=lambda i: cases[i]["adapter"] != "ecdsa")          # the long ones first
+        run_cases = [cases[i] for i in order]
+        traces = c11_run_cases(run_cases, wd, drv, "main", workers=10, chunk=3)
+        viols, ends, st, trn = c11_validate(traces, wd, "f_main")
+        mst, mtrn, configs = model.result()
+    # load-sensitive monitors are confirmed by running the case alone
+    confirmed = []
+    reruns = 0
+    for v in viols:
+        c = run_cases[v["t"]]
+        if v["mon"] in C11_LOAD_SENSITIVE:
+            again = True
+            if reruns < 6:
+                reruns += 1
+                tr2 = c11_run_cases([c], wd, drv, "re%d" % v["t"], workers=1, chunk=1)
+                v2, e2, st2, trn2 = c11_validate(tr2, wd, "f_re%d" % v["t"])
+                st += st2
+                trn += trn2
+                again = any(x["mon"] == v["mon"] for x in v2)
+            if not again:
+                k = "a load-sensitive monitor (%s) failed once and held when the case was re-run alone" % v["mon"]
+                drift[k] = drift.get(k, 0) + 1
+                continue
+        confirmed.append(v)
+    violations = []
+    for v in confirmed:
+        c = run_cases[v["t"]]
+        sig = c11_signature(v["mon"], c)
+        ev = traces[v["t"]]
+        detail = [o for o in ev if o["e"] in ("panic", "crash", "noret") or (o["e"] == "setdata" and o.get("panic"))][:2]
+        for o in detail:
+            if o["e"] == "setdata":
+                o["what"] = "SetShareData panicked: " + o["panic"]
+        hint = ""
+        if detail:
+            hint = "; " + str(detail[0].get("what") or detail[0].get("detail") or detail[0])[:300].replace("\n", " ")
+        violations.append((sig, "monitor %s is false on the real %s adapter: %s%s" % (v["mon"], c["adapter"], c11_describe(c), hint),
+                           dict(part="adapters", property="C11", monitor=v["mon"], signature=sig, case=c, real_trace=ev[:80])))
+    for t, e in ends.items():
+        if e.get("drift"):
+            k = e["drift"]
+            if k.startswith("the set-up"):
+                why = next((o.get("why", "") for o in traces[t] if o["e"] == "setupfail"), "")
+                k += ": %s [%s]" % (why[:120], c11_describe(run_cases[t]))
+            drift[k] = drift.get(k, 0) + 1
+    by = {}
+    for c in cases:
+        k = "%s %s %s" % (c["adapter"], c["phase"], c["fault"])
+        by[k] = by.get(k, 0) + 1
+    sample_t = next((t for t in sorted(traces) if run_cases[t]["fault"] == "vanish"), 0)
+    coverage = dict(states=r0.distinct + st + mst, transitions=r0.generated + trn + mtrn, traces_validated_against_impl=len(traces),
+                    adapter_fault_cases=by, configs=configs, monitors=C11_MONITORS, reruns_of_load_sensitive_cases=reruns,
+                    calls_returned_without_error=sum(e.get("nok", 0) for e in ends.values()),
+                    calls_returned=sum(e.get("nret", 0) for e in ends.values()),
+                    children_that_died=sum(1 for e in ends.values() if e.get("crash")),
+                    samples=[dict(case=run_cases[sample_t], events=[c11_slim(o) for o in traces[sample_t]][:12])],
+                    rule="spec/Adapters.tla Part 4 enumerates Vanish(p, k) for k = 0 .. all, Withhold(s, type, r) and Cancel(p) for the model's "
+                         "message count; each case runs on real adapter objects (KeyGen / Sign called directly, in-process router) in a child "
+                         "process, followed by a fresh honest session; plus contexts already expired and unusable stored share data; TLC "
+                         "evaluates the monitors on the recorded return times / values (spec/AdaptersTrace.tla)")
+    assumptions = [
+        "adapter level: a call must return at most 2 s after its context ended (observed: a few ms); the harness waits 6 s before it calls a call blocked; "
+        "timing verdicts are confirmed by a re-run alone",
+        "'k-th outgoing message' counts sendMsg calls (a point-to-point message to each receiver counts separately, a broadcast once)",
+        "a result returned without error counts as completed only if it is real: key generation -> the share data load and all such parties "
+        "report one public key; signing -> the signature verifies for the digest under the stored key",
+        "ECDSA signing uses the stored P-256 key (n=3, t=1); ECDSA key generation is exercised only with contexts that end before / while the "
+        "safe primes are generated",
+    ]
+    return dict(violations=violations, drift=drift, coverage=coverage, assumptions=assumptions)
+
+
+def c11_replay(path):
+    """re-runs the case of a replay object written for a violation of c11_part; same result structure"""
+    with open(path) as f:
+        o = json.load(f)
+    wd = vlib.scratch("C11ad_r")
+    drv = vlib.build_harness()
+    c = o["case"]
+    traces = c11_run_cases([c], wd, drv, "replay", workers=1, chunk=1)
+    viols, ends, st, trn = c11_validate(traces, wd, "f_replay")
+    violations = [(c11_signature(v["mon"], c), "monitor %s is false when the recorded case is re-run: %s" % (v["mon"], c11_describe(c)),
+                   dict(o, real_trace=traces[0][:80])) for v in viols]
+    for t, e in ends.items():
+        log("replayed: %r" % e)
+    return dict(violations=violations, drift={}, coverage=dict(states=st, transitions=trn, traces_validated_against_impl=1), assumptions=[])
 
 
 def run(pid):
